@@ -298,6 +298,31 @@ def run_other_thread(req):
 
 # ------------------------------------------------------------------------------------ greenback bridges
 
+def running_stack_check(tag, out):
+    """extract_since(None) from here must be exactly this thread's running stack: own frames by f_back, then each
+    greenlet parent's suspended frames (the C04 ground truth), whatever greenback has put in between"""
+    st = stackscope.extract_since(None, with_contexts=False)
+    got = [f.pyframe for f in st.frames]
+    parts = []
+    g = greenlet.getcurrent()
+    f = sys._getframe(0)
+    while True:
+        part = []
+        while f is not None:
+            part.append(f)
+            f = f.f_back
+        parts.append(part[::-1])
+        g = g.parent
+        if g is None:
+            break
+        f = g.gr_frame
+    true = [x for part in reversed(parts) for x in part]
+    if got != true or st.error is not None:
+        out.append({"kind": "running_stack_from_inside_a_greenback_task", "tag": tag, "got": len(got), "true": len(true),
+                    "tail_got": [x.f_code.co_name for x in got[-4:]], "tail_true": [x.f_code.co_name for x in true[-4:]],
+                    "error": repr(st.error)})
+
+
 def run_greenback(req):
     import greenback
     import trio
@@ -337,6 +362,7 @@ def run_greenback(req):
             if i == depth:
                 state["inside"] = extract(state["task"])
                 state["inside_levels"] = list(levels)
+                running_stack_check("sync", state.setdefault("running", []))
                 if not spawn:
                     greenback.await_(trio.sleep_forever())
                 return
@@ -349,6 +375,7 @@ def run_greenback(req):
             if i == depth:
                 state["inside"] = extract(state["task"])
                 state["inside_levels"] = list(levels)
+                running_stack_check("async", state.setdefault("running", []))
                 if not spawn:
                     await trio.sleep_forever()
                 return
@@ -400,6 +427,7 @@ def run_greenback(req):
         obs.extend(_bridging_hidden(st, tag))
     if out["warnings"]:
         obs.append({"kind": "warnings", "msgs": out["warnings"]})
+    obs.extend(state.get("running", []))
     return {"obs": obs[:6], "stats": {"observations": len(views), "glets": 0, "from_descendant": 0, "depth": depth}}
 
 
